@@ -64,6 +64,9 @@ def perturbations(gtirb, rng, ir):
         yield "ir aux remove key", lambda x: x.aux_data.pop(k)
         yield "ir aux value only", lambda x: x.aux_data.__setitem__(
             k, G.AuxData("other", "string"))
+        # same number of tables, one under another name
+        yield "ir aux rename key", lambda x: x.aux_data.__setitem__(
+            k + "~renamed", x.aux_data.pop(k))
     for mi, m in enumerate(mods):
         def M(x, mi=mi):
             return sorted(x.modules, key=lambda q: q.uuid.bytes)[mi]
@@ -94,6 +97,13 @@ def perturbations(gtirb, rng, ir):
             M(x), "uuid", uuidlib.UUID(int=M(x).uuid.int ^ 1))
         yield "module aux add key", lambda x, M=M: M(x).aux_data.__setitem__(
             "zz", G.AuxData(1, "uint8_t"))
+        if m.aux_data:
+            mk = sorted(m.aux_data)[0]
+            yield "module aux rename key", lambda x, M=M, mk=mk: \
+                M(x).aux_data.__setitem__(mk + "~renamed",
+                                          M(x).aux_data.pop(mk))
+            yield "module aux remove key", lambda x, M=M, mk=mk: \
+                M(x).aux_data.pop(mk)
         yield "module add section", lambda x, M=M: G.Section(
             name="new", module=M(x))
         yield "module add symbol", lambda x, M=M: G.Symbol(
